@@ -130,6 +130,9 @@ func ParseSIPMsg(buf []byte, offs int, msg *PSIPMsg, flags uint8) (int, ErrorHdr
 
 	var o = offs
 	var err ErrorHdr
+	// the fields parsed so far point inside buf (even if the parsing will
+	// not complete during this call)
+	msg.Buf = buf
 	switch msg.state {
 	case SIPMsgInit:
 		msg.offs = offs
